@@ -343,6 +343,96 @@ def mutation_part():
     return n, viols
 
 
+class _Box:
+    """A registered PyTree node class with identity equality (objects never compare equal)."""
+
+    def __init__(self, *ch):
+        self.ch = tuple(ch)
+
+
+class _Box2(_Box):
+    pass
+
+
+_LOOKALIKE = {}
+
+
+def _lookalike_makers():
+    import collections
+
+    import jax.tree_util as jtu
+
+    if not _LOOKALIKE:
+        for cls in (_Box, _Box2):
+            jtu.register_pytree_node(cls, lambda n: (n.ch, None), lambda _, ch, cls=cls: cls(*ch))
+        P1 = collections.namedtuple("P", "x y")
+        P2 = collections.namedtuple("P", "x y")  # another class with the same name and fields
+        Q = collections.namedtuple("Q", "x y")
+        _LOOKALIKE.update(
+            {
+                "tuple": lambda a, b: (a, b),
+                "list": lambda a, b: [a, b],
+                "namedtuple-P": lambda a, b: P1(a, b),
+                "namedtuple-P'": lambda a, b: P2(a, b),
+                "namedtuple-Q": lambda a, b: Q(a, b),
+                "dict": lambda a, b: {"x": a, "y": b},
+                "OrderedDict": lambda a, b: collections.OrderedDict(x=a, y=b),
+                "OrderedDict-yx": lambda a, b: collections.OrderedDict([("y", b), ("x", a)]),
+                "defaultdict": lambda a, b: collections.defaultdict(int, x=a, y=b),
+                "box": lambda a, b: _Box(a, b),
+                "box2": lambda a, b: _Box2(a, b),
+            }
+        )
+    return _LOOKALIKE
+
+
+def lookalike_part():
+    """Node types that LOOK alike (compare equal with ==, or have the same name and fields) but are
+    different PyTree node types - tuple vs namedtuples, dict vs OrderedDict vs defaultdict - and
+    node classes whose objects never compare equal.  For every ordered pair (T, X) of them and
+    every form: the verdict must be 'identical structure' as jax.tree_util itself sees it
+    (tree_structure(T) == tree_structure(X)); every pair is enumerated."""
+    common.bind_repo()
+    import jax.tree_util as jtu
+    from jaxtyping import PyTree
+    from .. import adapter
+
+    mk = _lookalike_makers()
+    viols, n = [], 0
+    forms = {
+        # form -> (structure string, how the candidate is built from the bottom maker)
+        "T": ("T", lambda m: m(1, 2)),
+        "... T": ("... T", lambda m: [m(1, 2), (m(3, 4), m(5, 6))]),
+        "T ...": ("T ...", lambda m: m((1, 2), [3])),
+        "S T": ("S T", lambda m: [m(1, 2), m(3, 4)]),
+    }
+    for tname, mt in mk.items():
+        for xname, mx in mk.items():
+            same = jtu.tree_structure(mt(0, 0)) == jtu.tree_structure(mx(0, 0))
+            for fname, (sstr, build) in forms.items():
+                n += 1
+
+                def body():
+                    r = [adapter.check(mt(1, 2), PyTree[int, "T"])]
+                    if fname == "S T":
+                        r.append(adapter.check([1, 2], PyTree[int, "S"]))
+                    r.append(adapter.check(build(mx), PyTree[int, sstr]))
+                    return r
+
+                got = adapter.in_context(body)
+                if got[:-1] != [True] * (len(got) - 1):
+                    raise common.HarnessError(f"C09 look-alike part: binding steps failed: {tname} {fname} {got}")
+                if got[-1] is not same:
+                    viols.append(
+                        Violation(
+                            key=f"C09:lookalike:{fname}:{tname}-vs-{xname}",
+                            what=f"T bound to a {tname} node; a candidate built from {xname} nodes against {sstr!r}: verdict {got[-1]!r}, but jax.tree_util says the two node types are {'the same' if same else 'different'} structures",
+                            replay=dict(kind="lookalike", t=tname, x=xname, form=fname),
+                        ).to_json()
+                    )
+    return n, viols
+
+
 def typing_any():
     import typing
 
@@ -513,6 +603,9 @@ def run(ctx):
     mn, mv = mutation_part()
     viols += [Violation(**v) for v in mv]
     stats["transitions"] += 4 * mn
+    kn, kv = lookalike_part()
+    viols += [Violation(**v) for v in kv]
+    stats["transitions"] += 2 * kn
     strs = structure_strings()
     n, counts, sv = _strings(strs)
     viols += [Violation(**v) for v in sv]
@@ -531,6 +624,7 @@ def run(ctx):
         verdict_annotation_error=stats["annot"],
         dontcare=stats["dontcare"] + counts["dontcare"],
         structure_strings=n,
+        lookalike_node_type_cases=kn,
         structure_strings_expected=counts,
         exhaustive=True,
         bounds="T,S: all trees of depth<=1 over tuple/list/dict/None/empty (arity<=2); X: trees of depth<=2 (thorough: all 27k per T; quick: every 12th plus all trees derived from T by composition and one-node mutation); "
@@ -551,6 +645,10 @@ def replay(rep):
     if rep["kind"] == "mutation":
         n, v = mutation_part()
         return dict(violations=[x["what"] for x in v][:4], violates=bool(v))
+    if rep["kind"] == "lookalike":
+        n, v = lookalike_part()
+        mine = [x for x in v if x["replay"] == dict(kind="lookalike", t=rep["t"], x=rep["x"], form=rep["form"])]
+        return dict(violations=[x["what"] for x in mine], violates=bool(mine))
     if rep["kind"] == "string":
         try:
             PyTree[int, rep["s"]]
